@@ -828,7 +828,13 @@ func runCase(t *testing.T, in Input) (obs []Obs) {
 				}
 				ct.SetSlot(op.Cur)
 				script()
-				e.release(op.Epoch)
+				if !e.release(op.Epoch) {
+					// not asked yet: give a refresh that takes its time a few (fake) seconds before
+					// concluding that the epoch is not being re-subscribed
+					time.Sleep(3 * time.Second)
+					synctest.Wait()
+					e.release(op.Epoch)
+				}
 				synctest.Wait()
 			} else {
 				waitFor(op, script)
@@ -1801,8 +1807,11 @@ func genReorg(r *Rand, trace bool) Input {
 		h.Cur, h.HSlot = s2, s2
 		pending = nil
 		h.PrevRoot, h.CurRoot = c0, uint64(r.Range(4001, 5000))
-		if r.Chance(2, 3) {
+		switch r.Intn(3) {
+		case 0:
 			h.PrevRoot = uint64(r.Range(3001, 4000)) // does not continue the old current root
+		case 1:
+			h.PrevRoot = p0 // the old previous root again: does not continue the old current root either
 		}
 		refreshed = []uint64{epoch + 1, epoch + 2}
 	}
